@@ -36,6 +36,7 @@ var redirect = map[string]map[string]string{
 		"UDPConn":      "UDPConn",
 		"TCPConn":      "TCPConn",
 		"Dialer":       "Dialer",
+		"ListenConfig": "ListenConfig",
 	},
 	"time": {
 		"Sleep": "Sleep",
@@ -50,7 +51,7 @@ var redirect = map[string]map[string]string{
 var refuse = map[string]map[string]bool{
 	"net": {
 		"Listen": true, "ListenTCP": true, "ListenIP": true, "ListenUnix": true, "ListenUnixgram": true,
-		"ListenMulticastUDP": true, "ListenConfig": true, "DialIP": true, "DialUnix": true,
+		"ListenMulticastUDP": true, "DialIP": true, "DialUnix": true,
 		"FileConn": true, "FileListener": true, "FilePacketConn": true, "Pipe": true,
 		"IPConn": true, "UnixConn": true, "TCPListener": true, "UnixListener": true,
 		"LookupHost": true, "LookupIP": true, "LookupAddr": true, "ResolveUDPAddr": false, "Resolver": true,
